@@ -735,6 +735,8 @@ qb_loop_signal_del(qb_loop_t * lp, qb_loop_signal_handle handle)
 	struct qb_loop_sig *sig_clone;
 	struct qb_loop *l = lp;
 	struct qb_loop_item *item;
+	struct qb_loop_item *next;
+	int32_t p;
 
 	if (l == NULL) {
 		l = qb_loop_default_get();
@@ -757,15 +759,21 @@ qb_loop_signal_del(qb_loop_t * lp, qb_loop_signal_handle handle)
 		}
 	}
 
-	qb_list_for_each_entry(item, &l->level[sig->p].job_head, list) {
-		if (item->type != QB_LOOP_SIG) {
-			continue;
-		}
-		sig_clone = (struct qb_loop_sig *)item;
-		if (sig_clone->cloned_from == sig) {
-			qb_loop_level_item_del(&l->level[sig->p], item);
-			qb_util_log(LOG_TRACE, "deleting sig in JOBLIST");
-			break;
+	/*
+	 * One clone is queued per delivered signal, at the priority the
+	 * registration had at that time: remove every one of them.
+	 */
+	for (p = QB_LOOP_LOW; p <= QB_LOOP_HIGH; p++) {
+		qb_list_for_each_entry_safe(item, next, &l->level[p].job_head, list) {
+			if (item->type != QB_LOOP_SIG) {
+				continue;
+			}
+			sig_clone = (struct qb_loop_sig *)item;
+			if (sig_clone->cloned_from == sig) {
+				qb_loop_level_item_del(&l->level[p], item);
+				qb_util_log(LOG_TRACE, "deleting sig in JOBLIST");
+				free(sig_clone);
+			}
 		}
 	}
 
